@@ -1,2 +1,3 @@
+@evalexec.setter
 def spec(self, value):
     self.__call_eval = value
